@@ -207,6 +207,11 @@ func decodeField(b *buffer, data []byte) ([]byte, error) {
 	}
 	b.field = int(x >> 3)
 	b.typ = int(x & 7)
+	if b.field == 0 {
+		// Field numbers start at 1. Runs of zero bytes, as in the words of a
+		// legacy binary CPU profile, must not pass for protobuf fields.
+		return nil, errors.New("invalid field number 0")
+	}
 	b.data = nil
 	b.u64 = 0
 	switch b.typ {
